@@ -14,12 +14,24 @@ def handleDiff (j : Json) : Json :=
   let r0 := Diff.analyse { rev := 0 } fuel a b
   Json.mkObj (Diff.J.outcomeJson r0 ++ [("alts", Json.arr #[run 1, run 2, run 3, run 4, run 5])])
 
+def handleExecute (j : Json) : Json :=
+  let ds := (Diff.J.arr j "diffs").filterMap Diff.J.entry
+  let ig := (Diff.J.arr j "ignores").filterMap Diff.J.entry
+  if ds.length ≠ (Diff.J.arr j "diffs").length || ig.length ≠ (Diff.J.arr j "ignores").length then
+    Json.mkObj [("r", Json.str "bad-input")]
+  else
+  let r := Diff.execute (Diff.J.str j "fmt" == "json") (Diff.J.bool j "brk") ds ig
+  match r.1 with
+  | .text lines => Json.mkObj [("r", Json.str "ok"), ("exit", Json.bool r.2), ("lines", Json.arr (lines.map Json.str).toArray)]
+  | .json out => Json.mkObj [("r", Json.str "ok"), ("exit", Json.bool r.2), ("diffs", Json.arr (out.map Diff.J.entryJson).toArray)]
+
 def handle (line : String) : Json :=
   match Json.parse line with
   | .error e => Json.mkObj [("r", Json.str "bad-input"), ("why", Json.str e)]
   | .ok j =>
     match (j.getObjValAs? String "op").toOption.getD "" with
     | "diff.analyse" => handleDiff j
+    | "diff.execute" => handleExecute j
     | op => Json.mkObj [("r", Json.str "bad-op"), ("op", Json.str op)]
 
 partial def loop (h : IO.FS.Stream) (out : IO.FS.Stream) : IO Unit := do
